@@ -12,7 +12,7 @@ That the Lean-native SM3 / SM4 / GCM *are* the national algorithms is not proved
 checked by the known-answer tests in `Gotlcp/Crypto/*.lean` at build time and by comparing them
 with emmansun/gmsm on every correspondence run (see checks/C04.json, trusted base).
 -/
-import Gotlcp.Lemmas.KeySchedule
+import Gotlcp.Lemmas.KeyScheduleRecord
 import Gotlcp.Generated.Facts
 
 set_option linter.unusedSimpArgs false
@@ -21,6 +21,7 @@ set_option linter.unusedVariables false
 namespace Gotlcp.Props.C04
 open Gotlcp.Crypto
 open Gotlcp.Lemmas.KeySchedule
+open Gotlcp.Lemmas.KeyScheduleRecord
 open Gotlcp.Model.KeySchedule
 
 /-! ### the regenerated facts the other theorems (and the model) rely on -/
@@ -288,14 +289,6 @@ example : incSeq [0, 0, 0, 0, 0, 0, 0, 255] = some [0, 0, 0, 0, 0, 0, 1, 0] := b
 
 /-! ### what is authenticated -/
 
-@[simp] theorem ofNat_mod (x : Nat) : UInt8.ofNat (x % 256) = UInt8.ofNat x := by
-  apply UInt8.toNat_inj.mp; simp
-
-theorem len16_eq (n : Nat) : len16 n = be 2 n := by
-  simp [len16, be]
-
-theorem be1 (n : Nat) : be 1 n = [UInt8.ofNat n] := by simp [be]
-
 /-- For the header `writeRecordLocked` builds and the sequence number it installs, the bytes the
 model feeds to the AEAD as additional data and to the HMAC are exactly the standard's
 seq_num ‖ type ‖ version ‖ length (‖ content): the 64-bit sequence number (DTLCP: epoch ‖ 48-bit
@@ -325,67 +318,214 @@ theorem C04_ad_covers (st : Stack) (h : Half) (typ ver epoch seq : Nat) (payload
 
 /-! ### round trip -/
 
-structure Laws (P : Prims) : Prop where
-  hmac_len : ∀ k m, (P.hmac k m).length = P.hLen
-  enc_len : ∀ k b, b.length = 16 → (P.enc k b).length = 16
-  dec_enc : ∀ k b, b.length = 16 → P.dec k (P.enc k b) = b
-  open_seal : ∀ k n ad p, P.aeadOpen k n ad (P.aeadSeal k n ad p) = some p
-  seal_len : ∀ k n ad p, (P.aeadSeal k n ad p).length = p.length + P.tagLen
+/-- a well-formed record header on entry of `encrypt`: the stack's header length, the last two
+bytes holding the plaintext length — what `writeRecordLocked` builds (`C04_header_wellformed`) -/
+def HeaderOK (st : Stack) (hdr payload : Bytes) : Prop :=
+  hdr.length = (srcOf st).recordHeaderLen ∧ hdr.drop ((srcOf st).recordHeaderLen - 2) = len16 payload.length
 
-theorem len16_length (n : Nat) : (len16 n).length = 2 := rfl
+theorem C04_header_wellformed (st : Stack) (w : WriteSide) (typ vers : Nat) (payload : Bytes) :
+    HeaderOK st (buildHeader st w typ vers payload.length) payload := by
+  cases st
+  · exact ⟨rfl, rfl⟩
+  · constructor
+    · simp [buildHeader, length_be, len16_length]; rfl
+    · have : (srcOf .dtlcp).recordHeaderLen - 2 = ([UInt8.ofNat typ] ++ len16 vers ++ be 2 w.writeEpoch ++ be 6 w.writeSeq).length := by
+        simp [length_be, len16_length]; rfl
+      rw [this]; simp [buildHeader]
 
-/-- shape of the record after `setLen`, for a header of the right length -/
-theorem setLen_shape (S : Src) (hdr x : Bytes) (n : Nat) (hh : hdr.length = S.recordHeaderLen) :
-    setLen S (hdr ++ x) n = hdr.take (S.recordHeaderLen - 2) ++ len16 n ++ x := by
-  unfold setLen
-  rw [List.take_append_of_le_length (by omega), List.drop_append_of_le_length (by omega),
-    List.drop_of_length_le (by omega)]
-  simp
-
-theorem drop_shape (hl : Nat) (hdr x : Bytes) (n : Nat) (hh : hdr.length = hl) (h2 : 2 ≤ hl) :
-    (hdr.take (hl - 2) ++ len16 n ++ x).drop hl = x := by
-  have : (hdr.take (hl - 2) ++ len16 n).length = hl := by
-    simp [List.length_take, len16_length]; omega
-  rw [List.drop_append_of_le_length (by omega), List.drop_of_length_le (by omega)]; simp
-
-theorem roundtrip_aead_tlcp (P : Prims) (L : Laws P) (k : DirKeys) (next : Option Cipher) (seq hdr payload rand : Bytes)
-    (hseq : seq.length = 8) (hhdr : hdr.length = 5) (hlen : hdr.drop 3 = len16 payload.length) :
-    match encrypt P srcTlcp .tlcp ⟨some (.aead k), next, seq⟩ hdr payload rand with
-    | .ok (rec, h') => decrypt P srcTlcp .tlcp ⟨some (.aead k), next, seq⟩ rec = .ok (payload, h')
-    | .panic => incSeq seq = none
+/-- `decrypt k seq (encrypt k seq hdr p) = ok p` — for BOTH stacks (5- and 13-byte headers), BOTH
+cipher kinds (CBC + HMAC with explicit IV and padding; AEAD with explicit nonce), every key, every
+8-byte sequence number, every payload, every source of IV bytes, and ANY primitives satisfying
+`Laws` (the block function pair is a permutation on 16-byte blocks, `open ∘ seal = id`, fixed MAC
+length). The receiver ends in the state the sender ends in (TLCP: both sequence numbers advanced
+by one). A TLCP sender at sequence number 2^64-1 panics instead (no wrap). -/
+theorem C04_record_roundtrip (P : Prims) (L : Laws P) (st : Stack) (c : Cipher) (next : Option Cipher)
+    (seq hdr payload rand : Bytes) (hseq : seq.length = 8) (hh : HeaderOK st hdr payload) (hrand : 16 ≤ rand.length) :
+    match encrypt P (srcOf st) st ⟨some c, next, seq⟩ hdr payload rand with
+    | .ok (rec, h') => decrypt P (srcOf st) st ⟨some c, next, seq⟩ rec = .ok (payload, h')
+    | .panic => st = .tlcp ∧ incSeq seq = none
     | .alert _ => False := by
-  have hS : srcTlcp.recordHeaderLen = 5 := rfl
-  have hen : explicitNonceLen srcTlcp (some (.aead k)) = 8 := rfl
+  obtain ⟨h1, h2⟩ := hh
+  cases st with
+  | tlcp =>
+    cases c with
+    | aead k =>
+      have h := roundtrip_aead_tlcp P L k next seq hdr payload rand hseq h1 h2
+      revert h; simp only [srcOf]
+      generalize encrypt P srcTlcp .tlcp ⟨some (.aead k), next, seq⟩ hdr payload rand = r
+      intro h; cases r <;> simp_all
+    | cbc k =>
+      have h := roundtrip_cbc_tlcp P L k next seq hdr payload rand hseq h1 h2 hrand
+      revert h; simp only [srcOf]
+      generalize encrypt P srcTlcp .tlcp ⟨some (.cbc k), next, seq⟩ hdr payload rand = r
+      intro h; cases r <;> simp_all
+  | dtlcp =>
+    cases c with
+    | aead k =>
+      have h := roundtrip_aead_dtlcp P L k next seq hdr payload rand hseq h1
+      revert h; simp only [srcOf]
+      generalize encrypt P srcDtlcp .dtlcp ⟨some (.aead k), next, seq⟩ hdr payload rand = r
+      intro h; cases r <;> simp_all
+    | cbc k =>
+      have h := roundtrip_cbc_dtlcp P L k next seq hdr payload rand h1 h2 hrand
+      revert h; simp only [srcOf]
+      generalize encrypt P srcDtlcp .dtlcp ⟨some (.cbc k), next, seq⟩ hdr payload rand = r
+      intro h; cases r <;> simp_all
+
+/-- the laws are jointly satisfiable (a transparent toy instance) … -/
+def toy : Prims where
+  hash := id
+  hmac := fun _ _ => List.replicate 32 0
+  hLen := 32
+  enc := fun _ b => b
+  dec := fun _ b => b
+  aeadSeal := fun _ _ _ p => p ++ List.replicate 16 0
+  aeadOpen := fun _ _ _ ct => some (ct.take (ct.length - 16))
+  tagLen := 16
+
+theorem C04_laws_satisfiable : Laws toy where
+  hmac_len := by intro k m; simp [toy]
+  enc_len := by intro k b h; simpa [toy] using h
+  dec_enc := by intro k b h; rfl
+  open_seal := by intro k n ad p; simp [toy]
+  seal_len := by intro k n ad p; simp [toy]
+
+/-- … and the hypotheses of the round trip hold on a concrete non-trivial record -/
+example :
+    (match encrypt toy srcDtlcp .dtlcp ⟨some (.cbc ⟨[1], [2], [3]⟩), none, be 2 1 ++ be 6 7⟩
+        (buildHeader .dtlcp ⟨Half.init, 1, 7⟩ 23 257 3) [10, 20, 30] (List.replicate 16 9) with
+      | .ok (rec, _) => decrypt toy srcDtlcp .dtlcp ⟨some (.cbc ⟨[1], [2], [3]⟩), none, be 2 1 ++ be 6 7⟩ rec
+      | _ => .panic) = .ok ([10, 20, 30], ⟨some (.cbc ⟨[1], [2], [3]⟩), none, be 2 1 ++ be 6 7⟩) := by decide
+
+/-! ### explicit IV / explicit nonce (DESIGN: C04_cbc_iv_fresh) -/
+
+/-- What travels in the clear in front of the ciphertext: for CBC the 16 bytes just read from the
+random source (a fresh IV per record — its unpredictability is the RNG's, trusted), for the AEAD
+the 8-byte sequence number (unique per key by `C04_seq_resets_only_on_ccs` and
+`C04_nonce_injective`). -/
+theorem C04_explicit_part (P : Prims) (st : Stack) (c : Cipher) (next : Option Cipher) (seq hdr payload rand rec : Bytes)
+    (h' : Half) (hseq : seq.length = 8) (hh : hdr.length = (srcOf st).recordHeaderLen) (hrand : 16 ≤ rand.length)
+    (he : encrypt P (srcOf st) st ⟨some c, next, seq⟩ hdr payload rand = .ok (rec, h')) :
+    match c with
+    | .cbc _ => ((rec.drop (srcOf st).recordHeaderLen).take 16) = rand.take 16
+    | .aead _ => ((rec.drop (srcOf st).recordHeaderLen).take 8) = seq := by
+  have hl2 : 2 ≤ (srcOf st).recordHeaderLen := by cases st <;> decide
   have h8 : seq.take 8 = seq := List.take_of_length_le (by omega)
-  have hne : (seq.length == 0) = false := by simp [hseq]
-  simp only [encrypt, hen, h8, hne]
-  simp only [Bool.false_eq_true, if_false]
-  generalize hct : P.aeadSeal k.key (prefixNonce srcTlcp k.iv seq) (adEncrypt srcTlcp .tlcp seq (hdr ++ seq) payload) payload = ct
-  have hctl : ct.length = payload.length + P.tagLen := by rw [← hct, L.seal_len]
-  rw [List.append_assoc, setLen_shape srcTlcp hdr (seq ++ ct) _ (by rw [hhdr]; rfl)]
-  cases hi : incSeq seq with
-  | none => simp
-  | some s' =>
-    simp only []
-    unfold decrypt
-    simp only [hS, hen]
-    rw [drop_shape 5 hdr (seq ++ ct) _ hhdr (by omega)]
-    have e1 : (seq ++ ct).take 8 = seq := by rw [List.take_append_of_le_length (by omega), h8]
-    have e2 : (seq ++ ct).drop 8 = ct := by rw [List.drop_append_of_le_length (by omega), List.drop_of_length_le (by omega)]; simp
-    have e3 : ¬ (seq ++ ct).length < 8 := by simp; omega
-    have e4 : ¬ ct.length < P.tagLen := by omega
-    simp only [e1, e2, e3, e4, if_false, hne, Bool.false_eq_true, hi]
-    have e5 : ct.length - P.tagLen = payload.length := by omega
-    have e6 : (hdr.take (5 - 2) ++ len16 (List.length (hdr ++ (seq ++ ct)) - 5) ++ (seq ++ ct)).take 3 = hdr.take 3 := by
-      have hl3 : (hdr.take (5 - 2)).length = 3 := by simp [List.length_take, hhdr]
-      rw [List.append_assoc, List.take_append_of_le_length (by omega)]
-      simp [List.take_take]
-    have e7 : seq ++ hdr.take 3 ++ len16 payload.length = adEncrypt srcTlcp .tlcp seq (hdr ++ seq) payload := by
-      have a1 : (hdr ++ seq).take 5 = hdr := by
-        rw [List.take_append_of_le_length (by omega)]; exact List.take_of_length_le (by omega)
-      simp only [adEncrypt, hS]
-      rw [a1, ← hlen, List.append_assoc, List.take_append_drop]
-    rw [e5, e6, e7, ← hct, L.open_seal]
+  have hivl : (rand.take 16).length = 16 := by simp [List.length_take]; omega
+  have key : ∀ (x y : Bytes) (n : Nat), rec = setLen (srcOf st) (hdr ++ x ++ y) n → rec.drop (srcOf st).recordHeaderLen = x ++ y := by
+    intro x y n hr
+    rw [hr, List.append_assoc, setLen_shape (srcOf st) hdr (x ++ y) n hh, drop_shape _ hdr (x ++ y) n hh hl2]
+  unfold encrypt at he
+  cases c with
+  | cbc k =>
+    have hen : explicitNonceLen (srcOf st) (some (.cbc k)) = 16 := by cases st <;> rfl
+    simp only [hen] at he
+    cases st with
+    | dtlcp =>
+      simp only [] at he
+      injection he with he; injection he with he _
+      simp only []
+      rw [key _ _ _ he.symm, List.take_append_of_le_length (by omega)]; exact List.take_of_length_le (by omega)
+    | tlcp =>
+      simp only [] at he
+      cases hi : incSeq seq with
+      | none => simp [hi] at he
+      | some s =>
+        simp only [hi] at he
+        injection he with he; injection he with he _
+        simp only []
+        rw [key _ _ _ he.symm, List.take_append_of_le_length (by omega)]; exact List.take_of_length_le (by omega)
+  | aead k =>
+    have hen : explicitNonceLen (srcOf st) (some (.aead k)) = 8 := by cases st <;> rfl
+    simp only [hen, h8] at he
+    cases st with
+    | dtlcp =>
+      simp only [] at he
+      injection he with he; injection he with he _
+      simp only []
+      rw [key _ _ _ he.symm, List.take_append_of_le_length (by omega)]; exact h8
+    | tlcp =>
+      simp only [] at he
+      cases hi : incSeq seq with
+      | none => simp [hi] at he
+      | some s =>
+        simp only [hi] at he
+        injection he with he; injection he with he _
+        simp only []
+        rw [key _ _ _ he.symm, List.take_append_of_le_length (by omega)]; exact h8
+
+/-! ### the sequence number -/
+
+/-- The sequence number of a half connection changes in exactly two ways.
+`encrypt` / `decrypt` (TLCP, cipher active): it advances by exactly one and every other field is
+untouched — or the call panics, which happens precisely when all 64 bits are set (no wrap).
+DTLCP: `encrypt` / `decrypt` leave it alone (it is loaded from writeEpoch/writeSeq resp. the
+record header). `changeCipherSpec`: it becomes zero, and only together with the installation of
+the pending cipher. No other function writes it (`C04_facts`: seqWriters / incSeqCallers). -/
+theorem C04_seq_resets_only_on_ccs (P : Prims) (st : Stack) (h : Half) (record payload rand : Bytes) :
+    (∀ rec h', encrypt P (srcOf st) st h record payload rand = .ok (rec, h') →
+        h'.cipher = h.cipher ∧ h'.next = h.next ∧
+        (st = .dtlcp ∨ h.cipher = none → h'.seq = h.seq) ∧
+        (st = .tlcp → h.cipher ≠ none → fromBE h'.seq = fromBE h.seq + 1 ∧ h'.seq.length = h.seq.length)) ∧
+    (encrypt P (srcOf st) st h record payload rand = .panic → st = .tlcp ∧ ∀ b ∈ h.seq, b = 255) ∧
+    (∀ h', changeCipherSpec (srcOf st) h = .ok h' →
+        h'.seq = zeroSeq ∧ h.next ≠ none ∧ h'.cipher = h.next ∧ h'.next = none) ∧
+    (h.next = none → changeCipherSpec (srcOf st) h = .alert (srcOf st).alertInternalError) := by
+  refine ⟨?_, ?_, ?_, ?_⟩
+  · intro rec h' he
+    unfold encrypt at he
+    cases hc : h.cipher with
+    | none =>
+      simp only [hc] at he
+      injection he with he; injection he with _ he; subst he
+      simp [hc]
+    | some c =>
+      simp only [hc] at he
+      cases st with
+      | dtlcp =>
+        simp only [] at he
+        injection he with he; injection he with _ he; subst he
+        simp [hc]
+      | tlcp =>
+        simp only [] at he
+        cases hi : incSeq h.seq with
+        | none => simp [hi] at he
+        | some s =>
+          simp only [hi] at he
+          injection he with he; injection he with _ he; subst he
+          have := incSeq_some _ _ hi
+          simp [hc, this]
+  · intro he
+    unfold encrypt at he
+    cases hc : h.cipher with
+    | none => simp [hc] at he
+    | some c =>
+      simp only [hc] at he
+      cases st with
+      | dtlcp => simp at he
+      | tlcp =>
+        simp only [] at he
+        cases hi : incSeq h.seq with
+        | some s => simp [hi] at he
+        | none =>
+          refine ⟨rfl, ?_⟩
+          unfold incSeq at hi
+          cases hr : incSeqRev h.seq.reverse with
+          | some r => simp [hr] at hi
+          | none =>
+            have := (incSeqRev_none _).mp hr
+            intro b hb
+            exact this b (by simpa using hb)
+  · intro h' hcs
+    unfold changeCipherSpec at hcs
+    cases hn : h.next with
+    | none => simp [hn] at hcs
+    | some c =>
+      simp only [hn] at hcs
+      injection hcs with hcs; subst hcs
+      simp
+  · intro hn
+    simp [changeCipherSpec, hn]
 
 
 end Gotlcp.Props.C04
